@@ -794,6 +794,16 @@ func (self *AofChannel) Push(dbId uint8, lock *Lock, commandType uint8, lockComm
 	}
 	aofLock.ExpriedFlag = lockCommand.ExpriedFlag
 	aofLock.ExpriedTime = self.aof.GetAofLockExpriedTime(lockCommand, lock, aofLock)
+	if commandType == protocol.COMMAND_LOCK && lockCommand.ExpriedFlag&protocol.EXPRIED_FLAG_UNLIMITED_EXPRIED_TIME != 0 && lock.expriedTime != 0x7fffffffffffffff {
+		aofLock.ExpriedFlag &= ^uint16(protocol.EXPRIED_FLAG_UNLIMITED_EXPRIED_TIME | protocol.EXPRIED_FLAG_MILLISECOND_TIME | protocol.EXPRIED_FLAG_MINUTE_TIME)
+		if expriedTimeSeconds := lock.expriedTime - int64(aofLock.CommandTime); expriedTimeSeconds > 0xffff {
+			aofLock.ExpriedTime = 0xffff
+		} else if expriedTimeSeconds > 0 {
+			aofLock.ExpriedTime = uint16(expriedTimeSeconds)
+		} else {
+			aofLock.ExpriedTime = 1
+		}
+	}
 	if unLockCommand == nil {
 		aofLock.Count = lockCommand.Count
 		if commandType == protocol.COMMAND_UNLOCK {
